@@ -54,3 +54,14 @@ Theorem C12_whole_run_tests_run : forall w o, reps o = 1 ->
   r_ran (run w o) = total nstart_ev (r_parent (run w o)) + sum_children nstart_ev (r_children (run w o)).
 Proof. exact run_ran. Qed.
 Print Assumptions C12_whole_run_tests_run.
+
+(* names-level ledger: the reported failure list is a permutation of the names carried by the failure events of
+   all processes, and the reported error list — apart from the "layer set-up failed" entries, which name the
+   layer being run — is a permutation of the names carried by the error events of all processes *)
+From Coq Require Import Permutation.
+From ZT Require Import RunNames.
+Theorem C12_whole_run_names : forall w o,
+  let r := run w o in
+  Permutation (r_fail r) (all_fnames r) /\ Permutation (filter nonsetup (r_err r)) (all_enames r).
+Proof. exact run_names. Qed.
+Print Assumptions C12_whole_run_names.
